@@ -442,3 +442,11 @@ Lemma escaped_lookup_hits_off_keywords : forall l n, gen_is_rust_keyword n = fal
 Proof.
   intros l n H. unfold lookup_hits, lookup_key. destruct (l_escaped l); [rewrite (escape_off_table n H)|]; apply name_eqb_refl.
 Qed.
+
+(* ------------------------------------------------------------------ spelling-dependent decisions are the audited ones *)
+
+Lemma spelling_audited_table : forallb sp_audited SPELLING_SITES = true.
+Proof. vm_compute; reflexivity. Qed.
+
+Lemma spelling_audited : forall x, In x SPELLING_SITES -> sp_audited x = true.
+Proof. intros x H. pose proof spelling_audited_table as F. rewrite forallb_forall in F. exact (F x H). Qed.
